@@ -113,8 +113,18 @@ def mir_dump(repo, kind='lib'):
     return r.stdout
 
 
+_native = {}
+
+
 def build_native(repo, release=False):
     """build the real txtpp binary + the replay helper against the scratch copy; returns dict of paths"""
+    if (repo, release) in _native:
+        return _native[(repo, release)]
+    _native[(repo, release)] = r = _build_native(repo, release)
+    return r
+
+
+def _build_native(repo, release=False):
     rp = os.path.join(scratch_dir(), 'replay')
     if not os.path.exists(rp):
         shutil.copytree(os.path.join(VERIF, 'replay'), rp, ignore=shutil.ignore_patterns('target'))
@@ -124,14 +134,25 @@ def build_native(repo, release=False):
     cmd = ['cargo', 'build', '--offline']
     if release:
         cmd.append('--release')
-    r = subprocess.run(cmd, cwd=rp, env=_env('target-replay'), stdout=subprocess.PIPE, stderr=subprocess.PIPE, text=True)
-    if r.returncode != 0:
-        sys.stderr.write(r.stderr[-6000:])
-        raise RuntimeError("native build failed")
-    prune_cache('target-replay')
     prof = 'release' if release else 'debug'
     d = os.path.join(CACHE, 'target-replay', prof)
-    return {'replay': os.path.join(d, 'txtpp-replay'), 'txtpp': os.path.join(d, 'txtpp')}
+    bind = os.path.join(scratch_dir(), 'bin-' + prof)
+    os.makedirs(bind, exist_ok=True)
+    os.makedirs(CACHE, exist_ok=True)
+    # the target directory is shared by every run (for the dependency cache), so two checks running at the same time against
+    # different trees would overwrite each other's binaries: build and copy out under one lock, then use the private copies
+    import fcntl
+    with open(os.path.join(CACHE, 'target-replay.lock'), 'w') as lk:
+        fcntl.flock(lk, fcntl.LOCK_EX)
+        for where in (rp, repo):
+            r = subprocess.run(cmd, cwd=where, env=_env('target-replay'), stdout=subprocess.PIPE, stderr=subprocess.PIPE, text=True)
+            if r.returncode != 0:
+                sys.stderr.write(r.stderr[-6000:])
+                raise RuntimeError("native build failed")
+        for b in ('txtpp-replay', 'txtpp'):
+            shutil.copy2(os.path.join(d, b), os.path.join(bind, b))
+        prune_cache('target-replay')
+    return {'replay': os.path.join(bind, 'txtpp-replay'), 'txtpp': os.path.join(bind, 'txtpp')}
 
 
 _machine = None
